@@ -337,6 +337,11 @@ func compareSignal(n *nav, sig Val, sh s35Shape, x *s35X, m *mism) {
 				}
 			}
 		}
+		if e.programSeg {
+			if cs, ok := n.elems(n.call(d, "Components")); !ok || len(cs) != 0 {
+				m.add(w+"is in program mode and reports %d components (%v)", len(cs), ok)
+			}
+		}
 		if e.hasDuration {
 			m.bits(w+"segmentation_duration (40 bits)", n.call(d, "Duration"), x.v(p+"duration"), 64)
 		}
